@@ -76,6 +76,41 @@ func body() {
 		broken("statement types without a template: %v", missing)
 	}
 
+	// informational: statements whose RequiredPrivileges() (the definition of
+	// "needs" used by this check) name neither admin nor the database given
+	// in their own ON clause
+	var gaps []string
+	seenGap := map[string]bool{}
+	for _, s := range allSingles() {
+		if s.D == "" || !strings.Contains(s.Text, " ON "+s.D) {
+			continue
+		}
+		for _, p := range dbParams {
+			if p == s.D {
+				continue
+			}
+			sh, err := mkShape(-1, []single{s}, p)
+			if err != nil {
+				broken("%v", err)
+			}
+			named := false
+			for _, n := range sh.needs[0] {
+				if n.Admin || n.DB == s.D {
+					named = true
+				}
+			}
+			if !named && !seenGap[s.Text] {
+				seenGap[s.Text] = true
+				var ns []string
+				for _, n := range sh.needs[0] {
+					ns = append(ns, n.String())
+				}
+				gaps = append(gaps, fmt.Sprintf("%s (db parameter %q) needs %v", s.Text, p, ns))
+			}
+		}
+	}
+	r.Set("influxql_required_privileges_not_naming_the_ON_database", gaps)
+
 	h, _ := bcrypt.GenerateFromPassword([]byte("probe"), bcrypt.DefaultCost)
 	t0 := time.Now()
 	bcrypt.CompareHashAndPassword(h, []byte("probe"))
